@@ -328,7 +328,7 @@ pub fn run(args: &Args, rep: &mut Report) {
                 for h in &hists {
                     let clone = base.clone_for_thread();
                     let fxr = &fx;
-                    hs.push(sc.spawn(move || -> Option<String> {
+                    hs.push(std::thread::Builder::new().name("vh-reader".into()).spawn_scoped(sc, move || -> Option<String> {
                         let mut d = match clone {
                             Ok(d) => d,
                             Err(e) => return Some(format!("error: clone_for_thread failed: {:#}", e)),
@@ -342,7 +342,7 @@ pub fn run(args: &Args, rep: &mut Report) {
                             }
                         }
                         None
-                    }));
+                    }).expect("spawn reader"));
                 }
                 hs.into_iter().map(|h| h.join().unwrap_or(Some("panic: reader thread panicked".into()))).collect()
             });
